@@ -1976,7 +1976,7 @@ func lemmaForwardSession(raw *rawEnvelope) (e *Session, e3 *Session, accepted bo
 //@   requires [C07] @clientword c.state == SessionStateAuthenticating && c.transport.nSentSes > 0 && c.transport.stage == 3
 //@   requires [C10] @policy policy(c)
 //@   modifies c.state, c.remoteNode, c.startRcv.fired, c.stopRcv.fired, c.transport.connected, c.transport.nSent, c.transport.lastSent, c.transport.nSentSes, c.transport.lastSes, c.transport.stage, c.transport.offerEnc, c.transport.offerComp, c.transport.offerSchemes, c.transport.confEnc, c.transport.confComp
-//@   ensures [C03] @announce result == nil ==> c.state == SessionStateEstablished && c.remoteNode == node && c.transport.stage == 4 && c.transport.lastSes.To == node && c.transport.lastSes.ID == c.sessionID && c.transport.lastSes.From == c.localNode
+//@   ensures [C03] @announce result == nil ==> c.state == SessionStateEstablished && c.remoteNode == node && c.transport.stage == 4 && c.transport.nSentSes > 0 && c.transport.lastSes.To == node && c.transport.lastSes.ID == c.sessionID && c.transport.lastSes.From == c.localNode
 //@   ensures c.state == SessionStateEstablished || c.state == old(c.state)
 //@   ensures c.state == SessionStateEstablished ==> c.startRcv.fired
 //@   ensures c.state == old(c.state) && old(c.state) != SessionStateEstablished ==> c.startRcv.fired == old(c.startRcv.fired)
